@@ -159,6 +159,18 @@ def iamEndpoint (tlds l2s : List Bytes) (assigned : Bool) (c : Config) (endpoint
     | _ => "refused-endpoint"
   | _ => "refused-endpoint"
 
+/-! ### remote JSON-LD contexts: `filteredDocumentLoader` (jsonld/ldutils.go), installed only in strict mode -/
+
+/-- does a context URL get past the filter (and so may be fetched)? strict: only a URL that IS an entry of the allow-list
+    (byte-for-byte equality — no prefix, case or normalisation rule); lenient: no filter -/
+def contextPasses (strict : Bool) (allow : List Bytes) (u : Bytes) : Bool := !strict || allow.contains u
+
+/-- the weaker comparison a prefix rule would give (for the witness only) -/
+def contextPassesPrefix (allow : List Bytes) (u : Bytes) : Bool := allow.any fun a => a.isPrefixOf u
+
+/-- notary: validator names are matched case-insensitively (`hasContractValidator` uses `strings.EqualFold`) -/
+def hasValidator (name : Bytes) (validators : List Bytes) : Bool := validators.any fun v => lower v = lower name
+
 /-! ### the documented insecure settings -/
 
 inductive Insecure where
